@@ -665,5 +665,5 @@ end C18
 #print axioms C18.reconnection_is_accepted_afresh
 #print axioms C18.elected_set_is_stable
 #print axioms C18.commit_leaves_elected_set
-#print axioms C18.elected_session_continues
 #print axioms C18.reachable_states_are_well_formed
+#print axioms C18.elected_session_continues
